@@ -29,13 +29,13 @@ BOUNDED_FUNCTIONS = {
     'dixon_price': ((1, 2, 3), {}),
     'rotated_ellipsoid': ((1, 2, 3), {}),
     'quadratic': ((1, 2, 3), {'use_ctor': True, 'convex_sizes': (1, 2)}),
-    'maxq': ((1, 2, 3), {}),
-    'maxhilb': ((1, 2, 3), {'convex_sizes': (1, 2)}),
+    'maxq': ((1, 2, 3), {'pieces': True}),
+    'maxhilb': ((1, 2, 3), {'convex_sizes': (1, 2), 'pieces': (1, 2)}),
     'kinks': ((1, 2), {}),
     'geometric': ((1, 2), {'use_ctor': True, 'cls': 'function_geometric_optimization_t'}),
-    'chained_lq': ((2, 3), {'convex_sizes': (2,)}),
-    'chained_cb3I': ((2, 3), {'convex_sizes': (2,)}),
-    'chained_cb3II': ((2, 3), {'convex_sizes': (2,)}),
+    'chained_lq': ((2, 3), {'convex_sizes': (2,), 'pieces': True}),
+    'chained_cb3I': ((2, 3), {'convex_sizes': (), 'pieces': True}),
+    'chained_cb3II': ((2, 3), {'convex_sizes': (), 'pieces': True}),
 }
 
 
@@ -66,6 +66,9 @@ def build(tier):
             v += losses.error_vcs(p, info, not_decided)
         return v, []
 
+    def classnll_binary():
+        return [], losses.classnll_one_output_vcs(info, not_decided)
+
     def sample_loops():
         v = losses.flatten_vcs(info)
         r, fl = losses.pinball_vcs(info, not_decided)
@@ -91,11 +94,10 @@ def build(tier):
         b = []
         for k in ('minimum_t', 'maximum_t', 'constant_t'):
             b += constraints.bounded_kind(k, (1, 2, 3), info, not_decided)
-        b += constraints.bounded_kind('quadratic_t', (1, 2), info, not_decided, symmetric=True, label='(symmetric P)')
         b += constraints.bounded_kind('quadratic_t', (1, 2), info, not_decided)
         return v, b
 
-    jobs = [guarded('helper contracts', lambda: (functions.helper_vcs(info), [])), guarded('loss kernels / error policies', kernels), guarded('per-sample loops', sample_loops), guarded('constraints', constraint_kinds)]
+    jobs = [guarded('helper contracts', lambda: (functions.helper_vcs(info), [])), guarded('loss kernels / error policies', kernels), guarded('per-sample loops', sample_loops), guarded('classnll with one output', classnll_binary), guarded('constraints', constraint_kinds)]
     jobs += [guarded(f'function {n}', generic_fn(n)) for n in GENERIC_FUNCTIONS]
     jobs += [guarded(f'function {n} (bounded)', bounded_fn(n, sizes, opts)) for n, (sizes, opts) in BOUNDED_FUNCTIONS.items()]
     # the jobs are dominated by clang runs (one translation unit per benchmark function): run them side by side
@@ -130,7 +132,11 @@ def build(tier):
             'exponential 2/n) => f(z) >= f(x) + <g(x), z - x> + mu/2 |z - x|^2 for all x, z in R^n',
             'constraint kinds, every dimension: euclidean ball (equality / inequality), linear (equality / inequality): same clauses, strong convexity 2 resp. 0',
             'BOUNDED stand-ins (fixed dimensions, listed under coverage.bounded): ' + ', '.join(f'{k} n={list(v[0])}' for k, v in BOUNDED_FUNCTIONS.items()) +
-            '; constraints minimum / maximum / constant n=1..3, quadratic n=1,2 (with and without the assumption that P is symmetric)',
+            '; constraints minimum / maximum / constant n=1..3, quadratic n=1,2 for EVERY square P (::symmetric(P) is extracted and walked)',
+            'max-of-terms functions (chained_lq, chained_cb3I, chained_cb3II n=2,3; maxq n=1..3; maxhilb n=1,2), BOUNDED: every piece of the value is a '
+            'minorant of the value; every signed addend of every piece is convex; on EVERY branch of the gradient code the returned vector is the gradient '
+            'of a piece that is ACTIVE (attains the returned value) at the point -- from which f(z) >= f(x) + <g(x), z - x> follows by the composition rule',
+            's-classnll with one output (BOUNDED n=1): gradient == d value / d output; value >= 0 is REFUTED there (known finding, see known_findings.txt)',
         ],
         'not_decided': not_decided + [
             'exactness in IEEE arithmetic: every identity / inequality is proved over the reals (overflow of exp, cancellation, the 2^-52 fuzz of '
@@ -139,8 +145,10 @@ def build(tier):
             'a flag that is pessimistic (convex = false on a convex function / loss, smooth = false, a strong-convexity coefficient smaller than the best one) '
             'is not a violation of the property and is not checked',
             'benchmark functions maxquad (3-D coefficient tensors) and the five elastic-net instantiations (function_enet_t<loss>: synthetic data + loss)',
-            'the bounded functions at dimensions other than the listed ones; convexity of chained_lq / chained_cb3I / chained_cb3II / maxhilb / quadratic at n = 3 '
-            '(the solvers time out); the declared strong-convexity coefficient of the quadratic function and of quadratic constraints (an eigenvalue computation)',
+            'the bounded functions at dimensions other than the listed ones; the convexity inequality AS ONE FORMULA for chained_cb3I / chained_cb3II (exp inside a max: '
+            'no solver decides it) and for chained_lq / maxhilb / quadratic at n = 3 (time-outs) -- for the max-of-terms functions it is replaced by the envelope / convex-addend / '
+            'active-piece obligations; the declared strong-convexity coefficient of the quadratic function and of quadratic constraints (an eigenvalue computation)',
+            'classnll for a symbolic number of outputs: gradient == derivative, convexity, non-negativity (maxCoeff + epsilon inside the logarithm)',
             'functional constraints (delegate to function_t::vgrad), the std::visit dispatch nano::vgrad / nano::convex / nano::strong_convexity over the variant',
             'machine-learning objectives: linear::function_t, gboost functions, tuner surrogate (the regularisation terms of the linear model are C09)',
         ],
@@ -160,9 +168,13 @@ def build(tier):
             '(make_random_vector / make_random_matrix) are arbitrary reals; the quadratic and geometric functions are walked on the member state their '
             'CONSTRUCTOR body establishes (m_A = I + A * A^T is extracted, not assumed)',
             'constant / minimum / maximum constraints: 0 <= m_dimension < n (::compatible, checked by function_t::constrain before a constraint is accepted)',
-            'quadratic constraints, n <= 2: nano::convex(P) (all eigenvalues have a non-negative real part) <=> trace(P) >= 0 and det(P) >= 0',
+            'quadratic constraints, n <= 2: nano::convex(M) (all eigenvalues of M have a non-negative real part) <=> trace(M) >= 0 and det(M) >= 0, for the matrix '
+            'M the code passes (::symmetric(P), extracted); nano::strong_convexity(M) is an opaque real (convexity is checked with mu = 0)',
+            's-classnll with one output: the valid targets are pos_target() = +1 and neg_target() = -1 (sclass_t::error has a binary branch; test_loss.cpp single_class)',
         ],
-        'trusted': ['specs/C06/sx.py derivative rule table', 'specs/C06/vcgen.py stated facts about exp / log / log1p / sqrt and finite sums',
+        'trusted': ['composition rule for max-of-terms functions: value >= piece everywhere, piece convex with gradient D(piece), piece(x) == value(x) and g(x) == D(piece)(x) '
+                    '=> value(z) >= piece(z) >= piece(x) + <D piece(x), z - x> = value(x) + <g(x), z - x>; a sum of convex addends is convex',
+                    'specs/C06/sx.py derivative rule table', 'specs/C06/vcgen.py stated facts about exp / log / log1p / sqrt and finite sums',
                     'specs/C06/eig.py closed list of Eigen operations', 'specs/C06/poly.py polynomial normal form (linearity of finite sums)'],
     }
 
@@ -207,7 +219,12 @@ def replay(rp):
             points += [([0.7, -1.3, 0.4, 1.9][:n], [-0.6, 0.8, 1.7, -0.2][:n]), ([2.0, -3.0, 1.0, 0.5][:n], [2.0, -2.0, 1.0, 0.5][:n])]
             for x, z in points:
                 if all(abs(v) < 1e6 for v in x + z):
-                    run((['fconvex', fid, n] + x + z) if 'convex' in oid else (['fgrad', fid, n] + x))
+                    run((['fconvex', fid, n] + x + z) if ('convex' in oid or 'active' in oid or 'envelope' in oid) else (['fgrad', fid, n] + x))
+        elif target.startswith('loss_classnll[sclass][n=1]'):
+            t, o = model.get('target@0'), model.get('output@0')
+            for (t, o) in ([(t, o)] if t is not None and o is not None else []) + [(-1.0, -2.0), (1.0, -2.0)]:
+                if abs(float(o)) < 1e3:
+                    run(['loss', 's-classnll', float(t), float(o), 0.0])
         elif target.startswith('loss_'):
             lm = re.match(r'loss_(\w+?)(?:\[(\w+)\])?$', target)
             lid = {'sclass': 's-', 'mclass': 'm-', 'absdiff': '', None: ''}[lm.group(2)] + lm.group(1).replace('_', '-')
